@@ -15,6 +15,24 @@ class Unknown(Exception):
     pass
 
 
+class FuncRef:
+    """A module-level function used as a value (e.g. in a dispatch table)."""
+
+    __slots__ = ("mod", "name")
+
+    def __init__(self, mod, name):
+        self.mod, self.name = mod, name
+
+    def __eq__(self, o):
+        return isinstance(o, FuncRef) and (self.mod, self.name) == (o.mod, o.name)
+
+    def __hash__(self):
+        return hash((self.mod, self.name))
+
+    def __repr__(self):
+        return f"<func {self.name}>"
+
+
 _BINOPS = {
     ast.Add: operator.add,
     ast.Sub: operator.sub,
@@ -104,11 +122,15 @@ class Env:
             if name in self.mod.assigns:
                 # fold every assignment sequence: use the last module-level binding
                 return fold(self.mod.assigns[name], Env(self.repo, self.mod, {}, self.depth + 1))
+            if name in self.mod.funcs:
+                return FuncRef(self.mod.rel, name)
             if name in self.mod.imports and self.repo is not None:
                 r = self.repo.resolve_dotted(self.mod.imports[name])
                 if r and r[0] == "const":
                     m, n = r[1]
                     return fold(m.assigns[n], Env(self.repo, m, {}, self.depth + 1))
+                if r and r[0] == "func":
+                    return FuncRef(r[1].mod.rel, r[1].qual)
         raise Unknown(name)
 
 
@@ -337,40 +359,59 @@ def module_env(repo, mod):
 
 
 def fold_module_sequence(repo, mod, name):
-    """Fold a module-level name taking into account later in-place edits at
-    module level of the forms ``name[a:b] = expr``, ``name[k] = expr``,
-    ``name.update(...)``, ``name.append``/``extend``, ``name += ...``.  Returns the final value."""
-    env = Env(repo, mod, {})
-    val = None
-    found = False
-    for st in mod.tree.body:
-        if isinstance(st, ast.Assign) and len(st.targets) == 1:
-            t = st.targets[0]
-            if isinstance(t, ast.Name) and t.id == name:
-                val = fold(st.value, env)
-                if isinstance(val, tuple):
-                    pass
-                found = True
-                env.local[name] = val
-            elif found and isinstance(t, ast.Subscript) and isinstance(t.value, ast.Name) and t.value.id == name:
-                v = fold(st.value, env)
-                s = t.slice
-                if isinstance(s, ast.Slice):
-                    lo = fold(s.lower, env) if s.lower else None
-                    hi = fold(s.upper, env) if s.upper else None
-                    val[lo:hi] = v
-                else:
-                    val[fold(s, env)] = v
-        elif found and isinstance(st, ast.AugAssign) and isinstance(st.target, ast.Name) and st.target.id == name:
-            v = fold(st.value, env)
-            val = _BINOPS[type(st.op)](val, v)
-            env.local[name] = val
-        elif found and isinstance(st, ast.Expr) and isinstance(st.value, ast.Call):
-            c = st.value
-            if isinstance(c.func, ast.Attribute) and isinstance(c.func.value, ast.Name) and c.func.value.id == name:
-                if c.func.attr in ("update", "append", "extend"):
-                    args = [fold(a, env) for a in c.args]
-                    getattr(val, c.func.attr)(*args)
-    if not found:
+    """Fold module-level name ``name`` by interpreting the module's top-level
+    statements in order (assignments of foldable values, slice/item stores,
+    augmented assignments, update/append/extend calls).  Statements whose value
+    cannot be folded are skipped; the name asked for must end up known."""
+    cache = getattr(mod, "_seqfold", None)
+    if cache is None:
+        env = Env(repo, mod, {})
+        local = env.local
+        poisoned = set()
+        for st in mod.tree.body:
+            try:
+                if isinstance(st, ast.Assign) and len(st.targets) == 1:
+                    t = st.targets[0]
+                    if isinstance(t, ast.Name):
+                        try:
+                            local[t.id] = fold(st.value, env)
+                            poisoned.discard(t.id)
+                        except Unknown:
+                            local.pop(t.id, None)
+                            poisoned.add(t.id)
+                    elif isinstance(t, ast.Subscript) and isinstance(t.value, ast.Name) and t.value.id in local:
+                        val = local[t.value.id]
+                        try:
+                            v = fold(st.value, env)
+                            sl = t.slice
+                            if isinstance(sl, ast.Slice):
+                                lo = fold(sl.lower, env) if sl.lower else None
+                                hi = fold(sl.upper, env) if sl.upper else None
+                                val[lo:hi] = v
+                            else:
+                                val[fold(sl, env)] = v
+                        except Unknown:
+                            local.pop(t.value.id, None)
+                            poisoned.add(t.value.id)
+                elif isinstance(st, ast.AugAssign) and isinstance(st.target, ast.Name) and st.target.id in local:
+                    try:
+                        local[st.target.id] = _BINOPS[type(st.op)](local[st.target.id], fold(st.value, env))
+                    except (Unknown, KeyError):
+                        local.pop(st.target.id, None)
+                        poisoned.add(st.target.id)
+                elif isinstance(st, ast.Expr) and isinstance(st.value, ast.Call):
+                    c = st.value
+                    if isinstance(c.func, ast.Attribute) and isinstance(c.func.value, ast.Name) and c.func.value.id in local and c.func.attr in ("update", "append", "extend"):
+                        try:
+                            getattr(local[c.func.value.id], c.func.attr)(*[fold(a, env) for a in c.args])
+                        except Unknown:
+                            local.pop(c.func.value.id, None)
+                            poisoned.add(c.func.value.id)
+            except Exception:
+                continue
+        cache = (local, poisoned)
+        mod._seqfold = cache
+    local, poisoned = cache
+    if name not in local:
         raise Unknown(name)
-    return val
+    return local[name]
